@@ -6,6 +6,9 @@ namespace Driver.C11
 open SdnsVerif.Model SdnsVerif.Model.OneReply SdnsVerif.Model.Util
 
 structure State where
+  sw : Writer := {}
+  scache : Bool := false
+  scfg : EdnsCfg := { doBit := true, noedns := false, udp := true, size := 1232 }
   w : Writer := {}
   wg : WG := {}
   qto : Nat := 1000
@@ -24,6 +27,11 @@ def retStr : Ret → String
   | .lease c => s!"lease:{c}"
   | .noLease => "nolease"
   | .unit => "unit"
+
+def sretStr : SRet → String
+  | .base r => retStr r
+  | .fallback => "fallback"
+  | .notWire => "notwire"
 
 def showW (w : Writer) (r : String) : String :=
   s!"ret={r} written={boolStr w.written} tx={txStr w.tx}"
@@ -205,6 +213,30 @@ def step (st : State) (w : List String) : State × String :=
       else if k == "emfile" || k == "econnaborted" || k == "nettemp" then AcceptRes.err false true
       else AcceptRes.err false false
     (st, s!"admitted={boolStr (acceptLoop (rs ++ [.conn]) == 1)}")
+  | ["ws", "new", dp, proto, dob, noedns, size, cl] =>
+    match parseBool dp, parseBool dob, parseBool noedns, size.toNat?, parseBool cl with
+    | some d, some dobit, some ne, some sz, some c =>
+      ({ st with sw := ({} : Writer).reset d false, scache := c,
+                 scfg := { doBit := dobit, noedns := ne, udp := proto == "udp", size := sz } }, "ok")
+    | _, _, _, _, _ => (st, "bad-op")
+  | ["ws", "writemsg", k, t] =>
+    match (if k == "plain" then some true else if k == "exotic" then some false else none), parseBool t with
+    | some p, some t =>
+      let r := stackCall st.scache st.scfg st.sw (.writeMsg p t)
+      ({ st with sw := r.1 }, showW r.1 (sretStr r.2))
+    | _, _ => (st, "bad-op")
+  | ["ws", kind, len, dnssec, t] =>
+    match len.toNat?, parseBool dnssec, parseBool t with
+    | some l, some ds, some t =>
+      let b : WireBody := { len := l, hasDNSSEC := ds }
+      if kind == "writewire" then
+        let r := stackCall st.scache st.scfg st.sw (.writeWire b t)
+        ({ st with sw := r.1 }, showW r.1 (sretStr r.2))
+      else if kind == "commit" then
+        let r := stackCall st.scache st.scfg st.sw (.commitWire b t)
+        ({ st with sw := r.1 }, showW r.1 (sretStr r.2))
+      else (st, "bad-op")
+    | _, _, _ => (st, "bad-op")
   | ["drain", "new"] => (st, "ok")
   | ["drain", script] =>
     let toks := script.splitOn ","
